@@ -1316,7 +1316,9 @@ impl Drop for Debugger {
 
 /// Read N bytes from `PID` process.
 pub fn read_memory_by_pid(pid: Pid, addr: usize, read_n: usize) -> Result<Vec<u8>, nix::Error> {
-    let mut result = Vec::with_capacity(read_n);
+    // `read_n` may come from user input (slice bounds) or from uninitialised debugee memory:
+    // reserve a bounded amount up front, the vector grows for as long as the reads succeed
+    let mut result = Vec::with_capacity(read_n.min(1 << 16));
 
     let single_read_size = mem::size_of::<c_long>();
 
